@@ -481,3 +481,85 @@ def inlined_function(src, qualname: str, depth: int = 2):
     f2.node = inline_methods(fi.node, class_resolver(src, fi.cls, fi), depth=depth)
     _norm_cache[key] = f2
     return f2
+
+
+# ---------------------------------------------------------------------------------------------------
+# state of the runtime class is per instance
+# ---------------------------------------------------------------------------------------------------
+_MUTATORS = {'append', 'extend', 'insert', 'pop', 'remove', 'clear', 'update', 'setdefault', 'popitem', 'add', 'discard', 'sort',
+             'reverse', '__setitem__', '__delitem__'}
+
+
+def check_per_instance_state(run: Run, rule: str, rt):
+    """a mutable object bound at class level of a runtime copy is one object for all instances of the generated class: when it
+    is changed in place or handed out (returned), overrides / sizes of one instance show up in every other one"""
+    import ast as _ast
+    for cp in rt.copies():
+        init = cp.members.get('__init__')
+        per_instance = set()
+        if init is not None:
+            for n in _ast.walk(init):
+                tg = n.targets if isinstance(n, _ast.Assign) else [n.target] if isinstance(n, (_ast.AnnAssign, _ast.AugAssign)) else []
+                for t in tg:
+                    if isinstance(t, _ast.Attribute) and isinstance(t.value, _ast.Name) and t.value.id == 'self':
+                        per_instance.add(t.attr)
+
+        def mutable(v):
+            if isinstance(v, (_ast.Dict, _ast.List, _ast.Set, _ast.ListComp, _ast.DictComp, _ast.SetComp)):
+                return True
+            if isinstance(v, _ast.Name) and v.id.startswith('__HOLE_'):
+                return True
+            if isinstance(v, _ast.Call) and isinstance(v.func, _ast.Name) and v.func.id in ('dict', 'list', 'set', 'defaultdict',
+                                                                                            'OrderedDict', 'bytearray'):
+                return True
+            return False
+        n_seen = 0
+        for st in cp.cls_node.body:
+            names = []
+            if isinstance(st, _ast.Assign):
+                names, val = [t.id for t in st.targets if isinstance(t, _ast.Name)], st.value
+            elif isinstance(st, _ast.AnnAssign) and st.value is not None and isinstance(st.target, _ast.Name):
+                names, val = [st.target.id], st.value
+            for name in names:
+                if not mutable(val):
+                    continue
+                n_seen += 1
+                construct = f'{name}[{cp.label}]'
+                if name in per_instance:
+                    run.ok(rule, construct, 'class-level default re-bound per instance in __init__', loc=cp.loc(st))
+                    continue
+                uses = []
+                for mname, fn in cp.members.items():
+                    for n in _ast.walk(fn):
+                        if isinstance(n, _ast.Attribute) and n.attr == name and isinstance(n.value, _ast.Name) and n.value.id in ('self', 'cls'):
+                            uses.append((mname, n))
+                how = None
+                for mname, fn in cp.members.items():
+                    pm = {c: p for p in _ast.walk(fn) for c in _ast.iter_child_nodes(p)}
+                    for n in _ast.walk(fn):
+                        if not (isinstance(n, _ast.Attribute) and n.attr == name and isinstance(n.value, _ast.Name) and
+                                n.value.id in ('self', 'cls')):
+                            continue
+                        p = pm.get(n)
+                        # self.X[...] = / del self.X[...] / self.X[...][...] =
+                        q, child = p, n
+                        while isinstance(q, _ast.Subscript) and q.value is child:
+                            if isinstance(q.ctx, (_ast.Store, _ast.Del)):
+                                how = how or f'{mname} stores into it (`{_ast.unparse(q)[:50]}`)'
+                            child, q = q, pm.get(q)
+                        if isinstance(p, _ast.Attribute) and p.attr in _MUTATORS and isinstance(pm.get(p), _ast.Call) and pm.get(p).func is p:
+                            how = how or f'{mname} calls .{p.attr}() on it'
+                        if isinstance(p, _ast.Return) and p.value is n:
+                            how = how or f'{mname} hands the object itself out'
+                        if isinstance(p, _ast.AugAssign) and p.target is n:
+                            how = how or f'{mname} updates it in place (`{_ast.unparse(p)[:50]}`)'
+                run.check(how is None, rule, construct, 'state-shared-between-instances',
+                          f'`{name}` of the {cp.label} copy is a mutable object bound at class level and not re-bound in __init__, and '
+                          f'{how}: every instance of one generated class then shares it (overrides or sizes set through one instance '
+                          f'appear in all others)', fact='class-level value never changed in place nor handed out', loc=cp.loc(st))
+        # the instance attributes that hold state are bound in __init__
+        for attr in ('_arguments', '_titles', '_sheets_size'):
+            if any(isinstance(n, _ast.Attribute) and n.attr == attr for fn in cp.members.values() for n in _ast.walk(fn)):
+                run.check(attr in per_instance, rule, f'{attr}[{cp.label}]/bound-per-instance', 'state-not-per-instance',
+                          f'`self.{attr}` of the {cp.label} copy is not bound in __init__: the instance works on an object that '
+                          f'belongs to the class', fact='bound in __init__', loc=cp.loc(init) if init is not None else cp.path)
